@@ -44,6 +44,15 @@ class StartWalker(pathwalk.Walker):
                 st.events.append(('bind', fn.text(t['ch'][0]), loc))
         elif k == 'CXXMemberCallExpr' and n['cn'] == 'yaclib::IExecutor::Submit':
             st.events.append(('submit', fn.text(n['args'][0]).lstrip('*'), loc))
+        elif k == 'CXXMemberCallExpr' and n.get('obj') is not None and n.get('args'):
+            # binding through a helper of the core: head->SetExecutor(e) where the helper stores its parameter into
+            # this->_executor
+            g = self.fb.fn.get(n.get('ck'))
+            if g is not None and g.cfg is not None and 'virtual' not in g.flags and \
+                    any('IExecutor' in g.locals[p]['t'] for p in g.params):
+                from rules import c05
+                if c05.executor_writes(g):
+                    st.events.append(('bind', fn.text(n['obj']).lstrip('*'), loc))
 
 
 def check_start(ctx, fb, rs):
@@ -217,7 +226,15 @@ def run(ctx):
                   'stores StopTag on every path of Drop()', minimum=6)
     rhm = ctx.rule('R-HANDLEMOVE', '(shared with C03) move-assigning over a Task never releases the chain it held by a '
                    'bare DecRef: the chain leaves in the right-hand side and is cancelled by its destructor', minimum=1)
+    raf = ctx.rule('R-ATTACHFORM', '(shared with C05) Task::Then(e, f) / Then(f) / ThenInline(f) build the lazy form of the '
+                   'step their eager sibling builds: same executor argument, same Call bit, plus Lazy', minimum=3)
+    rgw = ctx.rule('R-GETWAIT', '(shared with C01) Task::Get reads the Result only through a waiting Get: never by '
+                   'Touch() / ResultCore::Get on a chain that was only just started', minimum=1)
+    from rules import lib_attach
     for cfg, fb in sorted(fbs.items()):
+        ctx.guard(lambda: lib_attach.check_attach_forms(ctx, fb, raf, 'yaclib::Task', 3))
+        if (ctx.guard(lambda: lib_core.check_get_wait(ctx, fb, rgw, ('yaclib::Task',))) or 0) < 1:
+            ctx.guard(lambda: ctx.broken('R-GETWAIT: Task::Get not instantiated in %s' % cfg))
         ctx.guard(lambda: lib_head.check(ctx, fb, cfg, rh, None))
         from rules import lib_iptr
         ctx.guard(lambda: lib_iptr.check_handle_move(ctx, fb, rhm))
